@@ -28,7 +28,10 @@ def forced_cases(ctx, shapes, n_soup):
             continue
         doc = plssdoc.concretise(a, ctx.rng, vary_tr=True)
         text = plssdoc.render_doc(doc, ctx.rng, colons=False)
-        args = {"text": text, "source": "SRC-1", "config": ctx.rng.choice(["sec_colon_required", "sec_colon_required,parse_qq"])}
+        args = {"text": text, "source": "SRC-1", "config": ctx.rng.choice(["sec_colon_required", "sec_colon_required,parse_qq",
+                                                                                # ("sec_colon_required controls over sec_colon_cautious")
+                                                                                "sec_colon_required,sec_colon_cautious",
+                                                                                "sec_colon_cautious,parse_qq,sec_colon_required"])}
         cases.append({"id": "n%d" % j, "kind": "plss", "origin": "colon-less document, colon required",
                       "abs": {"x": {"forced_copy_all": False, "must_fall_back": True, "both_found": True}}, "args": args})
     for i in range(n_soup):
